@@ -41,11 +41,11 @@ def cond_facts(cond, sense):
     if k == "BinaryOperator" and n["op"] == "&&":
         if sense:
             return cond_facts(kids(n)[0], True) + cond_facts(kids(n)[1], True)
-        return []
+        return [(render(n), False, n)]        # not decomposable: kept as one atom (a rule may inspect its operands)
     if k == "BinaryOperator" and n["op"] == "||":
         if not sense:
             return cond_facts(kids(n)[0], False) + cond_facts(kids(n)[1], False)
-        return []
+        return [(render(n), True, n)]
     if is_smart_bool(n):
         o = [x for x in walk(n) if x["id"] == n["obj"]][0]
         return [(render(o), sense, o)]
@@ -71,11 +71,35 @@ def cond_facts(cond, sense):
     return out
 
 
+def _named_conditions(fn):
+    """'const bool ok = <condition>;' locals of fn: decl id -> initialiser (a test stated once and branched on by name)"""
+    c = getattr(fn, "_named_conds", None)
+    if c is None:
+        c = {}
+        for n in fn.all_nodes():
+            if n["k"] == "DeclStmt":
+                for d in n["decls"]:
+                    if d.get("init") is not None and d.get("ty") == "const bool":
+                        c[d["id"]] = d["init"]
+        fn._named_conds = c
+    return c
+
+
 def edge_facts(cfg, a, b):
     ec = cfg.edge_cond(a, b)
     if not ec:
         return []
-    return cond_facts(ec[0], ec[1])
+    out = cond_facts(ec[0], ec[1])
+    # a branch on a named condition carries the facts of the condition it names
+    named = _named_conditions(cfg.fn)
+    if named:
+        extra = []
+        for text, truth, node in out:
+            nn = strip(node)
+            if nn is not None and nn["k"] == "DeclRefExpr" and nn["decl"]["id"] in named:
+                extra += cond_facts(named[nn["decl"]["id"]], truth)
+        out = out + extra
+    return out
 
 
 def guarded_by(cfg, target_block, establishes, entry=None):
